@@ -477,6 +477,7 @@ def observe(it, data, phase, osev, extra=()):
 
 
 def make_interp(sec, leg):
+    _NODE_EXITS.clear()          # the memo keeps ASTs alive: one interpreter at a time
     it = Interpreter(sec, leg)
     it.setStandardOutput(io.StringIO())
     it.setStandardInput(io.StringIO(""))
